@@ -89,6 +89,14 @@ class LC:
     def merge(self, cnd, o):
         if not isinstance(o, LC):
             return UNK
+        dom = CUR_DOM[0] if CUR_DOM else None
+        if dom is not None and getattr(dom, 'norm_split', False) and dom.scalar_facts:
+            same = self.terms.keys() == o.terms.keys() and all(z3.eq(self.terms[k][1], o.terms[k][1]) for k in self.terms)
+            if not same:
+                # norm-only abstraction at a join (bundles that speak about lengths only): the merged vector is ONE fresh atom whose squared length is that of the branch taken
+                new = LC.fresh('join')
+                dom.fact(None, z3.If(cnd, dom.dot(new, new, None) == dom.dot(self, self, None), dom.dot(new, new, None) == dom.dot(o, o, None)))
+                return new
         out = {}
         for k in sorted(set(self.terms) | set(o.terms)):
             a = (self.terms.get(k) or o.terms.get(k))[0]
@@ -123,7 +131,13 @@ class LC:
             other = 'fixed' if i.kind == 'free' else 'free'
             if isinstance(v, MV) and z3.eq(v.tok, i.tok) and v.kind == i.kind == 'free':
                 # s[free] = w[free]:  s - R(s) + R(w)
-                return self.add(restrict(i.tok, self, st), -1).add(restrict(i.tok, v.lc, st))
+                new = self.add(restrict(i.tok, self, st), -1).add(restrict(i.tok, v.lc, st))
+                dom = eng.dom
+                if getattr(dom, 'scalar_facts', False) and getattr(dom, 'norm_split', False):
+                    # masking is an orthogonal projection: ||v||^2 == ||R v||^2 + ||v - R v||^2; the store replaces the free part and leaves the fixed part alone
+                    dom.fact(st, dom.dot(new, new, st) == dom.dot(self, self, st) - dom.dot(MV(self, i.tok, 'free'), MV(self, i.tok, 'free'), st)
+                             + dom.dot(MV(v.lc, i.tok, 'free'), MV(v.lc, i.tok, 'free'), st))
+                return new
             if isz(v) and isnum(v) and is_zero(to_real(v)):
                 if i.kind == 'fixed':
                     return restrict(i.tok, self, st)                   # s[fixed] = 0: only the free part is left
@@ -132,6 +146,7 @@ class LC:
 
 
 DOMAIN_FACTS = []
+CUR_DOM = []      # the domain instance of the verification in progress (for value-level hooks that have no access to it)
 SHRINK = {}     # sexpr of a mask token -> (parent token, index fixed, value stored)
 ANC = {}        # sexpr of a mask token -> tokens of the masks it was derived from by fixing coordinates
 
@@ -285,11 +300,12 @@ class LinCombDomain(RadiiDomain):
     name = 'Lc'
     inline = set()
 
-    def __init__(self, repo, scalar_facts=True, h_symmetric=False, abstract_at_sumsq=True, loop_defs=None, transfer_dots=False):
+    def __init__(self, repo, scalar_facts=True, h_symmetric=False, abstract_at_sumsq=True, loop_defs=None, transfer_dots=False, norm_split=False):
         RadiiDomain.__init__(self, repo)
         self.h_symmetric = h_symmetric              # H == H.T (asserted on entry of trsbox): x.(H y) == (H x).y, used to put dot products into one canonical form
         self.abstract_at_sumsq = abstract_at_sumsq  # forget the composition of a vector once its norm has been taken (keeps the norm proofs small)
         self.loop_defs = dict(loop_defs or {})      # (function, loop label) -> [(name, expression)]: an invariant of the form  name == expression, PROVED IN ANOTHER BUNDLE, used here as a definition at the loop head
+        self.norm_split = norm_split                # a masked store v[free] = w[free] also records ||v'||^2 == ||v||^2 - ||v_free||^2 + ||w_free||^2 (orthogonal projection)
         self.transfer_dots = transfer_dots          # when a vector is abstracted to one atom, keep its dot products with the other live vectors (definitional equations)
         self.portfolio = bool(scalar_facts)        # nonlinear real queries: z3 and cvc5 side by side, the first definite answer wins (each is occasionally slow where the other is instant)
         self.scalar_facts = scalar_facts      # False: dot products and square roots are unconstrained reals (enough for the linear identities, keeps the queries linear in PHI)
@@ -316,6 +332,7 @@ class LinCombDomain(RadiiDomain):
         st.assume(N_ >= 1)
         self.global_facts = DOMAIN_FACTS
         del DOMAIN_FACTS[:]
+        CUR_DOM[:] = [self]
         SHRINK.clear()
         ANC.clear()
 
@@ -332,6 +349,31 @@ class LinCombDomain(RadiiDomain):
             for c in con.asserts[key]:
                 v = eng.eval_clause(c, st, frame.old)
                 eng.oblige(st, v, 'assert', c.label, c.tags, line, site='%s.break#%d' % (ordinal, k))
+
+    def refine_branch(self, eng, st):
+        """a mask token that is a merge  If(c, new, old)  is replaced by the branch the path condition decides (the boundary iteration leaves its loops right after every store into
+        xbdi, so on the paths that go on the token is the old one); decided by a small propositional query, nothing is assumed"""
+        for nm, v in list(st.env.items()):
+            if isinstance(v, XB) and z3.is_app(v.tok) and z3.is_app_of(v.tok, z3.Z3_OP_ITE):
+                tok = v.tok
+                for _ in range(6):
+                    if not z3.is_app_of(tok, z3.Z3_OP_ITE):
+                        break
+                    c, a, b = tok.arg(0), tok.arg(1), tok.arg(2)
+                    sol = z3.Solver()
+                    sol.set('timeout', 500)
+                    sol.add(*st.pc)
+                    sol.push(); sol.add(c); r1 = sol.check(); sol.pop()
+                    if r1 == z3.unsat:
+                        tok = b
+                        continue
+                    sol.push(); sol.add(z3.Not(c)); r2 = sol.check(); sol.pop()
+                    if r2 == z3.unsat:
+                        tok = a
+                        continue
+                    break
+                if tok is not v.tok:
+                    st.env[nm] = XB(tok, v.anc)
 
     def fact(self, st, f):
         """a definitional fact about fresh symbols / uninterpreted functions: true on every path, so it is a global hypothesis of the obligations rather than part of a path condition"""
